@@ -1,6 +1,7 @@
 package main
 
 import (
+	"os"
 	"fmt"
 	"sort"
 	"go/ast"
@@ -136,7 +137,13 @@ func (x *Exec) convert(env *evalEnv, n *ast.CallExpr, t types.Type) Val {
 		return Val{v.S, t}
 	case isString(t) && isInt(v.Ty):
 		x.ctx.decl("fun:str_of_rune", "(declare-fun str_of_rune (Int) Str)")
-		return Val{"(str_of_rune " + v.S + ")", t}
+		// string(r): the UTF-8 encoding of r (1..4 bytes), of U+FFFD when r is not a Unicode scalar value
+		sr := "(str_of_rune " + v.S + ")"
+		valid := fmt.Sprintf("(and (<= 0 %s) (<= %s 1114111) (not (and (<= 55296 %s) (<= %s 57343))))", v.S, v.S, v.S, v.S)
+		if x.inSpec == 0 {
+			x.st.assume(fmt.Sprintf("(and (<= 1 (strlen %s)) (<= (strlen %s) 4) (= (runeW %s 0) (strlen %s)) (= (runeAt %s 0) (ite %s %s 65533)))", sr, sr, sr, sr, sr, valid, v.S))
+		}
+		return Val{sr, t}
 	case isString(t) && isString(v.Ty):
 		return Val{v.S, t}
 	}
@@ -482,12 +489,76 @@ func (x *Exec) callFunc(env *evalEnv, n *ast.CallExpr, fn *types.Func, recvExpr 
 		}
 		return rs
 	}
+	if cnt := x.inlineCost(cu, map[*types.Func]bool{}); cnt > inlineLimit {
+		// a large function without contract is not inlined: what it can modify is havoced, its results are unconstrained
+		ms := newModSet()
+		x.collectMods(cu, cu.Decl.Body, ms, map[*types.Func]bool{fn: true})
+		ms.allocs = true
+		x.unmodelled = append(x.unmodelled, fmt.Sprintf("%s: call of %s (no contract, %d statements): not inlined; its modification set is havoced and its results are unconstrained", posStr(x.v.fset, n.Pos()), full, cnt))
+		x.havocMods(ms, x.st)
+		var rs []Val
+		for i := 0; i < sig.Results().Len(); i++ {
+			t := sig.Results().At(i).Type()
+			rs = append(rs, Val{x.ctx.Fresh("res", x.ctx.Sort(t)), t})
+		}
+		return rs
+	}
 	return x.inlineCall(env, n, cu, recv, args)
+}
+
+const inlineLimit = 120
+
+// inlineCost: statements of the function plus, transitively, of the repository functions without contract it calls
+func (x *Exec) inlineCost(cu *FuncUnit, seen map[*types.Func]bool) int {
+	if c, ok := x.v.costMemo[cu.Obj]; ok {
+		return c
+	}
+	if seen[cu.Obj] {
+		return inlineLimit + 1
+	}
+	seen[cu.Obj] = true
+	c := stmtCount(cu.Decl.Body)
+	ast.Inspect(cu.Decl.Body, func(nd ast.Node) bool {
+		call, ok := nd.(*ast.CallExpr)
+		if !ok || c > inlineLimit {
+			return true
+		}
+		fn := x.calleeOf(cu.Pkg.TypesInfo, call)
+		if fn == nil {
+			return true
+		}
+		sub := x.v.byObj[fn]
+		if sub == nil || sub.Decl.Body == nil {
+			return true
+		}
+		if con := x.v.contractOf(sub); con != nil && !con.Inline {
+			return true
+		}
+		c += x.inlineCost(sub, seen)
+		return true
+	})
+	delete(seen, cu.Obj)
+	x.v.costMemo[cu.Obj] = c
+	return c
+}
+
+func stmtCount(n ast.Node) int {
+	c := 0
+	ast.Inspect(n, func(nd ast.Node) bool {
+		if _, ok := nd.(ast.Stmt); ok {
+			c++
+		}
+		return true
+	})
+	return c
 }
 
 func (x *Exec) inlineCall(env *evalEnv, n *ast.CallExpr, cu *FuncUnit, recv *Val, args []Val) []Val {
 	fn := cu.Obj
 	sig := fn.Type().(*types.Signature)
+	if os.Getenv("GOVC_DEBUG_INLINE") != "" {
+		fmt.Fprintf(os.Stderr, "inline %*s%s\n", x.depth*2, "", fn.FullName())
+	}
 	x.inlining[fn] = true
 	x.depth++
 	defer func() { delete(x.inlining, fn); x.depth-- }()
@@ -674,7 +745,7 @@ func (x *Exec) applyContract(env *evalEnv, n *ast.CallExpr, cu *FuncUnit, con *C
 			x.st = sv
 			for _, f := range x.derefFields(cu, it.deref) {
 				nv := x.ctx.Fresh("mod_"+f.Name(), x.ctx.Sort(f.Type()))
-				x.st.heap[f] = fmt.Sprintf("(store %s %s %s)", x.heapOf(x.st, f), obj.S, nv)
+				x.setHeap(f, fmt.Sprintf("(store %s %s %s)", x.heapOf(x.st, f), obj.S, nv))
 			}
 		case it.objExp != nil:
 			sel := it.objExp.(*ast.SelectorExpr)
@@ -692,7 +763,7 @@ func (x *Exec) applyContract(env *evalEnv, n *ast.CallExpr, cu *FuncUnit, con *C
 				x.fail(n.Pos(), "modifies %s: object is not a pointer", exprStr(sel))
 			}
 			nv := x.ctx.Fresh("mod_"+f.Name(), x.ctx.Sort(f.Type()))
-			x.st.heap[f] = fmt.Sprintf("(store %s %s %s)", x.heapOf(x.st, f), obj.S, nv)
+			x.setHeap(f, fmt.Sprintf("(store %s %s %s)", x.heapOf(x.st, f), obj.S, nv))
 		}
 	}
 	if allocs {
@@ -873,6 +944,8 @@ func (x *Exec) libCall(env *evalEnv, n *ast.CallExpr, fn *types.Func, full strin
 		x.st.assume("(=> (> (strlen " + a[0].S + ") 0) (and (>= (runeW " + a[0].S + " 0) 1) (<= (runeW " + a[0].S + " 0) (strlen " + a[0].S + "))))")
 		x.trustedUsed["utf8.DecodeRuneInString (assumed: returns the first rune and a width in 1..len for a non-empty string)"] = true
 		x.st.assume("(>= (runeAt " + a[0].S + " 0) 0)")
+		// the decoder returns a Unicode scalar value (U+FFFD for an invalid encoding)
+		x.st.assume(fmt.Sprintf("(and (<= (runeAt %s 0) 1114111) (not (and (<= 55296 (runeAt %s 0)) (<= (runeAt %s 0) 57343))))", a[0].S, a[0].S, a[0].S))
 		return []Val{{"(runeAt " + a[0].S + " 0)", types.Typ[types.Rune]}, {"(runeW " + a[0].S + " 0)", tInt}}
 	case "sort.SliceStable", "sort.Slice":
 		return x.sortModel(env, n)
